@@ -160,6 +160,24 @@ func runC10(c *Ctx) {
 						kind = constName(g, kv.Value)
 					}
 				}
+				// the entry may be built by a small constructor: f(KIND, key) whose only
+				// statement returns &KeyComposite{Type: <that parameter>, ...}
+				if cc, ok := n.(*ast.CallExpr); ok && cc != call {
+					if h := c.FnOfObj(g.Callee(cc)); h != nil && len(h.Body.List) == 1 {
+						if r, ok := h.Body.List[0].(*ast.ReturnStmt); ok && len(r.Results) == 1 {
+							ast.Inspect(r.Results[0], func(m ast.Node) bool {
+								if kv, ok := m.(*ast.KeyValueExpr); ok {
+									if id, ok := kv.Key.(*ast.Ident); ok && id.Name == "Type" {
+										if i := h.paramIndex(h.ObjOf(kv.Value)); i >= 0 && i < len(cc.Args) {
+											kind = constName(g, cc.Args[i])
+										}
+									}
+								}
+								return true
+							})
+						}
+					}
+				}
 				return true
 			})
 			if kind == "" {
